@@ -275,10 +275,15 @@ theorem recordLinks_prev {rs : List Record} {prev next : List Int} (e : recordLi
       · left; simp [prevOf]
       · right; exact ⟨j, by simp [prevOf]⟩
 
+/-- no continuing fragment at time 0 is the first record of its channel -/
+def NoOrphanAtZero (rs : List Record) : Prop :=
+  ∀ (i : Nat) (b : Record), rs[i]? = some b → b.recordI ≠ 0 → b.time = 0 →
+    ∃ (j : Nat) (a : Record), j < i ∧ rs[j]? = some a ∧ a.channel = b.channel
+
 /-- `next_record` when no continuing fragment at time 0 is the first record of its channel: the mirror image of
 `previous_record`. -/
-theorem recordLinks_next {rs : List Record} {prev next : List Int} (e : recordLinks rs = .ok (prev, next))
-    (hz : noOrphanAtZero rs = true) :
+theorem recordLinks_next' {rs : List Record} {prev next : List Int} (e : recordLinks rs = .ok (prev, next))
+    (hz : NoOrphanAtZero rs) :
     next.length = rs.length ∧
     ∀ j, j < rs.length →
       (∀ i : Nat, next[j]? = some (i : Int) ↔ IsPrevFragment rs (samplesPerRecord rs) j i) ∧
@@ -298,7 +303,7 @@ theorem recordLinks_next {rs : List Record} {prev next : List Int} (e : recordLi
       obtain ⟨d1, d2, d3⟩ := decision_spec (samplesPerRecord rs) rs k b hb
       rcases d3 l hk with rfl | ⟨j, rfl⟩
       · obtain ⟨hri, ht, hno⟩ := d2.1 hk
-        obtain ⟨j, a, hj, ha, hc⟩ := noOrphanAtZero_spec hz k b hb hri ht
+        obtain ⟨j, a, hj, ha, hc⟩ := hz k b hb hri ht
         exact absurd hc (hno j a hj ha)
       · exact ⟨j, rfl, (d1 j).1 hk⟩
   have hconv : ∀ j k, IsPrevFragment rs (samplesPerRecord rs) j k → ds[k]? = some (some (j : Int)) := by
@@ -374,6 +379,14 @@ theorem recordLinks_next {rs : List Record} {prev next : List Int} (e : recordLi
       · intro h; exact absurd ⟨i, h⟩ hex
     · left; exact hun
 
+theorem recordLinks_next {rs : List Record} {prev next : List Int} (e : recordLinks rs = .ok (prev, next))
+    (hz : noOrphanAtZero rs = true) :
+    next.length = rs.length ∧
+    ∀ j, j < rs.length →
+      (∀ i : Nat, next[j]? = some (i : Int) ↔ IsPrevFragment rs (samplesPerRecord rs) j i) ∧
+      (next[j]? = some (-1) ∨ ∃ i : Nat, next[j]? = some (i : Int)) :=
+  recordLinks_next' e (fun i b hb hri ht => noOrphanAtZero_spec hz i b hb hri ht)
+
 /-! ### time-adjacent continuing fragments are the next fragment of the same pulse -/
 
 /-- start time of the pulse a fragment belongs to, computed from its own fields -/
@@ -416,5 +429,223 @@ theorem adjacent_iff_next_in_pulse (spr : Nat) (a b : Record) (hspr : 0 < spr) (
     omega
 
 instance (spr : Nat) (a b : Record) : Decidable (SameOrDisjoint spr a b) := by unfold SameOrDisjoint; infer_instance
+
+/-! ### well-formed pulses -/
+
+/-- index of the last record before position `i` in channel `c` -/
+def lastSame (rs : List Record) (c : Int) : Nat → Option Nat
+  | 0 => none
+  | i + 1 =>
+    match rs[i]? with
+    | some a => if a.channel = c then some i else lastSame rs c i
+    | none => lastSame rs c i
+
+theorem lastSame_spec (rs : List Record) (c : Int) : ∀ i, i ≤ rs.length →
+    (lastSame rs c i = none ∧ ∀ (j : Nat) (b : Record), j < i → rs[j]? = some b → b.channel ≠ c)
+    ∨ ∃ j, lastSame rs c i = some j ∧ LastIn rs c i j := by
+  intro i
+  induction i with
+  | zero => intro _; left; simp [lastSame]
+  | succ i ih =>
+    intro hi
+    obtain ⟨r, hr⟩ : ∃ r, rs[i]? = some r := ⟨rs[i]'(by omega), by simp⟩
+    simp only [lastSame, hr]
+    by_cases hc : r.channel = c
+    · right
+      simp only [hc, ↓reduceIte]
+      exact ⟨i, rfl, by omega, ⟨r, hr, hc⟩, fun j' b h1 h2 => by omega⟩
+    · simp only [hc, ↓reduceIte]
+      rcases ih (by omega) with ⟨h1, h2⟩ | ⟨j, h1, l1, l2, l3⟩
+      · left
+        refine ⟨h1, ?_⟩
+        intro j b hj hb
+        by_cases hji : j = i
+        · subst hji; rw [hr] at hb; simp only [Option.some.injEq] at hb; subst hb; exact hc
+        · exact h2 j b (by omega) hb
+      · right
+        refine ⟨j, h1, by omega, l2, ?_⟩
+        intro j' b h1' h2' hb
+        by_cases hji : j' = i
+        · subst hji; rw [hr] at hb; simp only [Option.some.injEq] at hb; subst hb; exact hc
+        · exact l3 j' b h1' (by omega) hb
+
+/-- record `b` at position `i` fits behind the records before it: sane fields; a 0th fragment starts after the buffer of
+the previous record of its channel ends; a continuing fragment directly continues the previous record of its channel -/
+def wfAt (rs : List Record) (spr : Nat) (i : Nat) (b : Record) : Bool :=
+  decide (0 < b.dt ∧ 0 ≤ b.recordI ∧ 0 ≤ b.channel) &&
+  match lastSame rs b.channel i with
+  | none => decide (b.recordI = 0)
+  | some j =>
+    match rs[j]? with
+    | none => false
+    | some a =>
+      if b.recordI = 0 then decide (a.time + (spr : Int) * a.dt ≤ b.time)
+      else decide (b.recordI = a.recordI + 1 ∧ b.dt = a.dt ∧ b.time = a.time + (spr : Int) * a.dt)
+
+/-- **Well-formed pulses** (decidable): in every channel the records are, in order, the fragments `0, 1, 2, …` of
+pulses that follow each other without overlap — every fragment series starts with `record_i = 0`, each further fragment
+is time-adjacent to the previous record of the channel and numbered one higher. -/
+def wellFormedPulses (rs : List Record) : Bool :=
+  decide (0 < samplesPerRecord rs) &&
+  (List.range rs.length).all fun i =>
+    match rs[i]? with
+    | some b => wfAt rs (samplesPerRecord rs) i b
+    | none => true
+
+theorem wellFormedPulses_spec {rs : List Record} (h : wellFormedPulses rs = true) :
+    0 < samplesPerRecord rs ∧
+    ∀ (i : Nat) (b : Record), rs[i]? = some b →
+      0 < b.dt ∧ 0 ≤ b.recordI ∧ 0 ≤ b.channel ∧
+      ((b.recordI = 0 ∧ ∀ (j : Nat) (a : Record), LastIn rs b.channel i j → rs[j]? = some a →
+          a.time + (samplesPerRecord rs : Int) * a.dt ≤ b.time)
+       ∨ (b.recordI ≠ 0 ∧ ∃ (j : Nat) (a : Record), LastIn rs b.channel i j ∧ rs[j]? = some a ∧
+          b.recordI = a.recordI + 1 ∧ b.dt = a.dt ∧ b.time = a.time + (samplesPerRecord rs : Int) * a.dt)) := by
+  unfold wellFormedPulses at h
+  simp only [Bool.and_eq_true, decide_eq_true_eq, List.all_eq_true, List.mem_range] at h
+  obtain ⟨hspr, hall⟩ := h
+  refine ⟨hspr, ?_⟩
+  intro i b hb
+  have hi : i < rs.length := by
+    rcases Nat.lt_or_ge i rs.length with h | h
+    · exact h
+    · simp [List.getElem?_eq_none h] at hb
+  have := hall i hi
+  simp only [hb, wfAt, Bool.and_eq_true, decide_eq_true_eq] at this
+  obtain ⟨⟨h1, h2, h3⟩, hrest⟩ := this
+  refine ⟨h1, h2, h3, ?_⟩
+  rcases lastSame_spec rs b.channel i (by omega) with ⟨hn, hno⟩ | ⟨j, hj, hl⟩
+  · simp only [hn, decide_eq_true_eq] at hrest
+    left
+    refine ⟨hrest, ?_⟩
+    intro j a ⟨l1, ⟨a', ha', hc'⟩, _⟩ _
+    exact absurd hc' (hno j a' l1 ha')
+  · simp only [hj] at hrest
+    cases ha : rs[j]? with
+    | none => simp [ha] at hrest
+    | some a =>
+      simp only [ha] at hrest
+      by_cases hri : b.recordI = 0
+      · simp only [hri, ↓reduceIte, decide_eq_true_eq] at hrest
+        left
+        refine ⟨hri, ?_⟩
+        intro j' a' hl' ha'
+        have : j = j' := hl.unique hl'
+        subst this
+        rw [ha] at ha'; simp only [Option.some.injEq] at ha'; subst ha'
+        exact hrest
+      · simp only [hri, ↓reduceIte, decide_eq_true_eq] at hrest
+        right
+        exact ⟨hri, j, a, hl, ha, hrest⟩
+
+/-- the last record of a channel before `i` exists as soon as some record of the channel precedes `i` -/
+theorem exists_lastIn {rs : List Record} {c : Int} {i j : Nat} {a : Record} (hi : i ≤ rs.length) (hj : j < i)
+    (ha : rs[j]? = some a) (hc : a.channel = c) : ∃ j0, LastIn rs c i j0 ∧ j ≤ j0 := by
+  rcases lastSame_spec rs c i hi with ⟨-, hno⟩ | ⟨j0, -, hl⟩
+  · exact absurd hc (hno j a hj ha)
+  · refine ⟨j0, hl, ?_⟩
+    obtain ⟨l1, l2, l3⟩ := hl
+    rcases Nat.lt_or_ge j0 j with h | h
+    · exact absurd hc (l3 j a h hj ha)
+    · exact h
+
+/-- in a well-formed array the buffers of the records of one channel follow each other without overlap -/
+theorem wf_mono {rs : List Record} (h : wellFormedPulses rs = true) :
+    ∀ (i : Nat) (b : Record), rs[i]? = some b → ∀ (j : Nat) (a : Record), j < i → rs[j]? = some a → a.channel = b.channel →
+      a.time + (samplesPerRecord rs : Int) * a.dt ≤ b.time := by
+  obtain ⟨hspr, hwf⟩ := wellFormedPulses_spec h
+  intro i
+  induction i using Nat.strongRecOn with
+  | _ i ih =>
+    intro b hb j a hj ha hc
+    have hi : i < rs.length := by
+      rcases Nat.lt_or_ge i rs.length with h | h
+      · exact h
+      · simp [List.getElem?_eq_none h] at hb
+    obtain ⟨j0, hl0, hjj0⟩ := exists_lastIn (by omega) hj ha hc
+    obtain ⟨l1, ⟨a0, ha0, hc0⟩, -⟩ := id hl0
+    -- the step from `j0` to `i`
+    have step : a0.time + (samplesPerRecord rs : Int) * a0.dt ≤ b.time := by
+      obtain ⟨-, -, -, hcase⟩ := hwf i b hb
+      rcases hcase with ⟨-, h0⟩ | ⟨-, j', a', hl', ha', -, -, ht⟩
+      · exact h0 j0 a0 hl0 ha0
+      · have : j0 = j' := LastIn.unique hl0 hl'
+        subst this
+        rw [ha0] at ha'; simp only [Option.some.injEq] at ha'; subst ha'
+        omega
+    by_cases hjeq : j = j0
+    · subst hjeq
+      rw [ha] at ha0; simp only [Option.some.injEq] at ha0; subst ha0
+      exact step
+    · have h1 := ih j0 l1 a0 ha0 j a (by omega) ha (by rw [hc, hc0])
+      obtain ⟨hdt0, -, -, -⟩ := hwf j0 a0 ha0
+      have : 0 < (samplesPerRecord rs : Int) * a0.dt := Int.mul_pos (by omega) hdt0
+      omega
+
+/-- `i` holds the fragment that follows the fragment at `j` in one pulse of one channel -/
+def IsNextFragment (rs : List Record) (spr : Nat) (j i : Nat) : Prop :=
+  ∃ a b, rs[j]? = some a ∧ rs[i]? = some b ∧ j < i ∧ a.channel = b.channel ∧ NextInPulse spr a b
+
+theorem wf_isPrevFragment_iff {rs : List Record} (h : wellFormedPulses rs = true) (j i : Nat) :
+    IsPrevFragment rs (samplesPerRecord rs) j i ↔ IsNextFragment rs (samplesPerRecord rs) j i := by
+  obtain ⟨hspr, hwf⟩ := wellFormedPulses_spec h
+  constructor
+  · rintro ⟨a, b, ha, hb, hl, hri, ht⟩
+    obtain ⟨hdt, hrb, -, hcase⟩ := hwf i b hb
+    rcases hcase with ⟨h0, -⟩ | ⟨-, j', a', hl', ha', h1, h2, h3⟩
+    · exact absurd h0 hri
+    · have : j = j' := LastIn.unique hl hl'
+      subst this
+      rw [ha] at ha'; simp only [Option.some.injEq] at ha'; subst ha'
+      obtain ⟨l1, ⟨a1, ha1, hc1⟩, -⟩ := hl
+      rw [ha] at ha1; simp only [Option.some.injEq] at ha1; subst ha1
+      obtain ⟨-, hra, -, -⟩ := hwf j a ha
+      refine ⟨a, b, ha, hb, l1, hc1, ?_⟩
+      exact (adjacent_iff_next_in_pulse _ a b hspr hdt hra hrb
+        (Or.inl ⟨by unfold pulseStart; rw [h1, h2, h3, Int.add_mul]; omega, h2.symm⟩)).1 ⟨hri, ht⟩
+  · rintro ⟨a, b, ha, hb, hji, hc, hn⟩
+    obtain ⟨hdt, hrb, -, hcase⟩ := hwf i b hb
+    obtain ⟨-, hra, -, -⟩ := hwf j a ha
+    have hi : i < rs.length := by
+      rcases Nat.lt_or_ge i rs.length with h | h
+      · exact h
+      · simp [List.getElem?_eq_none h] at hb
+    obtain ⟨hri, ht⟩ := (adjacent_iff_next_in_pulse _ a b hspr hdt hra hrb (Or.inl ⟨hn.1, hn.2.1⟩)).2 hn
+    rcases hcase with ⟨h0, -⟩ | ⟨-, j', a', hl', ha', h1, h2, h3⟩
+    · exact absurd h0 hri
+    · -- `j` must be that last record `j'`
+      obtain ⟨j0, hl0, hjj0⟩ := exists_lastIn (by omega) hji ha hc
+      have : j0 = j' := LastIn.unique hl0 hl'
+      subst this
+      by_cases hjeq : j = j0
+      · subst hjeq
+        exact ⟨a, b, ha, hb, hl', hri, ht⟩
+      · exfalso
+        obtain ⟨l1, ⟨a1, ha1, hc1⟩, -⟩ := hl'
+        rw [ha'] at ha1; simp only [Option.some.injEq] at ha1; subst ha1
+        have hm := wf_mono h j0 a' ha' j a (by omega) ha (by rw [hc, hc1])
+        obtain ⟨hdt', -, -, -⟩ := hwf j0 a' ha'
+        have : 0 < (samplesPerRecord rs : Int) * a'.dt := Int.mul_pos (by omega) hdt'
+        omega
+
+/-- well-formed arrays have no orphan at time 0 (no orphans at all) and only non-negative channels -/
+theorem wf_noOrphan {rs : List Record} (h : wellFormedPulses rs = true) : NoOrphanAtZero rs := by
+  obtain ⟨-, hwf⟩ := wellFormedPulses_spec h
+  intro i b hb hri _
+  obtain ⟨-, -, -, hcase⟩ := hwf i b hb
+  rcases hcase with ⟨h0, -⟩ | ⟨-, j, a, ⟨l1, ⟨a1, ha1, hc1⟩, -⟩, ha, -⟩
+  · exact absurd h0 hri
+  · exact ⟨j, a1, l1, ha1, hc1⟩
+
+theorem wf_recordLinks_ok {rs : List Record} (h : wellFormedPulses rs = true) : ∃ prev next, recordLinks rs = .ok (prev, next) := by
+  obtain ⟨-, hwf⟩ := wellFormedPulses_spec h
+  have hany : rs.any (fun r => decide (r.channel < 0)) = false := by
+    rw [List.any_eq_false]
+    intro r hr
+    obtain ⟨i, hi⟩ := List.mem_iff_getElem?.1 hr
+    have := (hwf i r hi).2.2.1
+    simp; omega
+  refine ⟨(linkDecisions (samplesPerRecord rs) rs 0 LinkSt.init).map prevOf,
+    nextWrites rs.length (linkDecisions (samplesPerRecord rs) rs 0 LinkSt.init) 0 (List.replicate rs.length (-1)), ?_⟩
+  simp only [recordLinks, hany, Bool.false_eq_true, ↓reduceIte]
 
 end Strax.Pulse
